@@ -6,6 +6,7 @@ import OttoVerif.Base.Proto
 import OttoVerif.C05.Spec
 import OttoVerif.Base.ParseNumber
 import OttoVerif.C05.Obj
+import OttoVerif.C05.Ops2
 namespace OttoVerif.C05.Driver
 open OttoVerif.F64 OttoVerif.Proto OttoVerif.C05
 
@@ -83,6 +84,107 @@ def rOut (r : Obj.R Val) : String :=
   | .typeError l => "throw:TypeError|" ++ lg l
   | .thrown v l => "throw:" ++ valOut v ++ "|" ++ lg l
 
+/-! ### Ops2: expression requests
+
+  `ex <expr>` with <expr> in prefix form over space-separated words:
+    v <val> | U | g <tag> <val> | q <tag> <expr> | u <uop> <expr> | b <bop> <expr> <expr>
+    | a <expr> <expr> | o <expr> <expr> | c <expr> <expr> <expr>
+  <val> = a primitive token, or `O(id;kind;valueOf;toString;fk;chain;layers)` with kind `d` = Date (other
+  kinds only tell the harness how to build the object), fk = `-` | `F<id>` | `Fp` | `B<fk>`,
+  chain = `-` | ids joined by `.`, layers = `-` | layers joined by `/`, layer = `e` | keys joined by `.`,
+  key = hex bytes (`_` = the empty name).
+  `instr <name-val> <len> <layer>`: `name in new String(<len chars>)` with the stored own names <layer>. -/
+open Ops2 in
+def fk? (cs : List Char) : Option FK :=
+  match cs with
+  | ['-'] => some .none
+  | ['F', 'p'] => some (.fn none)
+  | 'F' :: r => (String.ofList r).toNat?.map fun i => .fn (some i)
+  | 'B' :: r => (fk? r).map .bound
+  | _ => none
+
+def key? (t : String) : Option (List Nat) := if t = "_" then some [] else bytes? t
+
+def allSome {α : Type} : List (Option α) → Option (List α)
+  | [] => some []
+  | none :: _ => none
+  | some a :: r => (allSome r).map (a :: ·)
+
+def layer? (t : String) : Option Ops2.Layer :=
+  if t = "e" then some [] else allSome ((t.splitOn ".").map key?)
+
+def layers? (t : String) : Option (List Ops2.Layer) :=
+  if t = "-" then some [] else allSome ((t.splitOn "/").map layer?)
+
+def chain? (t : String) : Option (List Nat) :=
+  if t = "-" then some [] else allSome ((t.splitOn ".").map String.toNat?)
+
+def vl? (t : String) : Option Ops2.Vl :=
+  if t.startsWith "O(" then
+    match (String.ofList ((t.toList.drop 2).dropLast)).splitOn ";" with
+    | [i, k, v, s, f, c, l] => do
+      let i ← i.toNat?
+      let v ← beh? v
+      let s ← beh? s
+      let f ← fk? f.toList
+      let c ← chain? c
+      let l ← layers? l
+      pure (.obj { o := { id := i, isDate := k = "d", valueOf := v, toStr := s }, fk := f, chain := c, layers := l })
+    | _ => none
+  else (val? t).map .prim
+
+def uop? : String → Option Ops2.UOp
+  | "pos" => some .plus | "neg" => some .neg | "bnot" => some .bnot | "not" => some .lnot
+  | "typeof" => some .typeof | "void" => some .void | _ => none
+
+def bop? (t : String) : Option Ops2.BOp :=
+  if t = "inst" then some .instOf else if t = "in" then some .inOp else
+  match bin? t with
+  | some o => some (.num o)
+  | none => (cmp? t).map .cmp
+
+partial def ex? : List String → Option (Ops2.Ex × List String)
+  | "v" :: t :: r => (vl? t).map fun v => (.leaf (.value v), r)
+  | "U" :: r => some (.leaf .unres, r)
+  | "g" :: tag :: t :: r => (vl? t).map fun v => (.leaf (.getter tag v), r)
+  | "q" :: tag :: r => do let (e, r) ← ex? r; pure (.seq tag e, r)
+  | "u" :: op :: r => do let op ← uop? op; let (e, r) ← ex? r; pure (.un op e, r)
+  | "b" :: op :: r => do let op ← bop? op; let (a, r) ← ex? r; let (b, r) ← ex? r; pure (.bin op a b, r)
+  | "a" :: r => do let (a, r) ← ex? r; let (b, r) ← ex? r; pure (.and a b, r)
+  | "o" :: r => do let (a, r) ← ex? r; let (b, r) ← ex? r; pure (.or a b, r)
+  | "c" :: r => do let (c, r) ← ex? r; let (a, r) ← ex? r; let (b, r) ← ex? r; pure (.cond c a b, r)
+  | _ => none
+
+def vlOut : Ops2.Vl → String
+  | .prim v => valOut v
+  | .obj b => "o" ++ toString b.o.id
+
+def resOut (r : Ops2.Res Ops2.Vl) : String :=
+  let lg (l : List String) := if l.isEmpty then "-" else ",".intercalate l
+  match r with
+  | .ok v l => vlOut v ++ "|" ++ lg l
+  | .typeError l => "throw:TypeError|" ++ lg l
+  | .refError l => "throw:ReferenceError|" ++ lg l
+  | .thrown v l => "throw:" ++ valOut v ++ "|" ++ lg l
+
+def devEx (e : Ops2.Ex) : String :=
+  let ds := (if Ops2.devCond e then ["cond_reference"] else []) ++ (if Ops2.devPlus e then ["plus_getvalue_late"] else [])
+  if ds.isEmpty then "-" else ",".intercalate ds
+
+def handle2 (ws : List String) : String :=
+  match ws with
+  | "ex" :: r =>
+    match ex? r with
+    | some (e, []) => reply (resOut (Ops2.run env e)) (resOut (Ops2.Spec.run env e)) (devEx e)
+    | _ => "bad-op"
+  | ["instr", a, n, l] =>
+    match val? a, n.toNat?, layer? l with
+    | some v, some n, some l =>
+      let name := Obj.primToStr env v
+      reply (boolOut (Ops2.strGetOwn l n name)) (boolOut (Ops2.Spec.strGetOwn l n name)) "-"
+    | _, _, _ => "bad-op"
+  | _ => "bad-op"
+
 def handle (ws : List String) : String :=
   match ws with
   | ["toInt32", a] => match val? a with
@@ -125,6 +227,6 @@ def handle (ws : List String) : String :=
     match op, operand? a, operand? b with
     | some op, some x, some y => reply (rOut (Obj.apply env op x y)) (rOut (Obj.Spec.apply env op x y)) "-"
     | _, _, _ => "bad-op"
-  | _ => "bad-op"
+  | _ => handle2 ws
 
 end OttoVerif.C05.Driver
